@@ -11,7 +11,9 @@
    `spec_decode` says, and leaves the decoder state unchanged.  Fixed-layout definitions (those C01 covers).
    E2E_single_frame: the instance for decode_tcp on the EByte packet  t :: identifier (4 bytes, big endian) ++ data ++ pad.
    E2E_all_formats: the instance for every rendering of the frame in the five input grammars (those of C07_frontends).
-   E2E_no_definition: a dispatched PGN whose payload matches no definition (no fallback): the call returns None. *)
+   E2E_no_definition: a dispatched PGN whose payload matches no definition (no fallback): the call returns None.
+   E2E_undispatched: a PGN without dispatcher — the bound definition, every payload (no Match rule is consulted).
+   E2E_claim: the address claim 60928 — message with the identity built from its fields, source map updated. *)
 From NV Require Import Base Bits Defn PyNum Fields Dispatch DispatchProofs Template Spec SpecProofs
                        Header HeaderProofs PyText Wire WireProofs DecoderCtl EndToEnd EndToEndProofs.
 From NVGen Require Import GenDb GenCode GenDisp GenLookups GenDbLookups.
@@ -24,6 +26,15 @@ Definition db_groups : list (list dbdef) := groups db_defs.
 Theorem E2E_side :
   forallb (fun g => forallb (fun d => (Defn.d_pgn d =? group_pgn g) && ascii (bytes_of_str (Defn.d_id d))) g) db_groups = true.
 Proof. vm_compute. reflexivity. Qed.
+
+(* the two table theorems of this run, restated over this file's `db_groups` (one conversion each) *)
+Lemma G_ok : forall g, In g db_groups -> group_ok code_disp code_ids g = true.
+Proof. intros g Hg. pose proof OblC08.C08_tables as T. rewrite forallb_forall in T. apply T. exact Hg. Qed.
+Lemma C01_here : forall g d, In g db_groups -> In d (bound_defs g) -> simple_def d = true ->
+  exists cd, find_fname (fname_of g d) code_dec = Some cd /\
+    forall p, run_ddef code_lookups code_bitlookups code_indirect p cd
+              = spec_decode (norm_lookups db_lookups) (norm_lookups db_bitlookups) p d.
+Proof. intros g d Hg. exact (OblC01.C01 g d Hg). Qed.
 
 Definition SL := norm_lookups db_lookups.
 Definition SLB := norm_lookups db_bitlookups.
@@ -39,15 +50,14 @@ Theorem E2E_any_entry : forall g d, In g db_groups -> in_scope g = true -> In d 
   step ts_ok cfg0 st i = (st, e2e_expected SL SLB d (le_int data) src dst prio (zlookup src (srcmap st))).
 Proof.
   intros g d Hg Sc Hd S ts_ok st i pgn prio src dst data comb P Ep Hp Hf Hi Sel.
-  assert (G : group_ok code_disp code_ids g = true).
-  { pose proof OblC08.C08_tables as T. rewrite forallb_forall in T. apply T. exact Hg. }
+  pose proof (G_ok g Hg) as G.
   pose proof E2E_side as Sd. rewrite forallb_forall in Sd. specialize (Sd g Hg).
   rewrite forallb_forall in Sd. specialize (Sd d (bound_defs_in g d Hd)).
   apply andb_true_iff in Sd. destruct Sd as [Pg A]. apply Z.eqb_eq in Pg.
   unfold step.
   apply (e2e_single_frame_tables code_dec code_disp code_ids code_fast code_lookups code_bitlookups code_indirect
            ts_ok SL SLB g d st i pgn prio src dst data comb); try assumption.
-  exact (OblC01.C01 g d Hg Hd S).
+  exact (C01_here g d Hg Hd S).
 Qed.
 Print Assumptions E2E_any_entry.
 
@@ -133,19 +143,73 @@ Theorem E2E_no_definition : forall g, In g db_groups -> is_dispatched g = true -
   step ts_ok cfg0 st i = (st, Ok None).
 Proof.
   intros g Hg D ts_ok st i pgn prio src dst data comb P Ep Hp Hf Hi Sel.
-  assert (G : group_ok code_disp code_ids g = true).
-  { pose proof OblC08.C08_tables as T. rewrite forallb_forall in T. apply T. exact Hg. }
+  pose proof (G_ok g Hg) as G.
   unfold step.
   apply (e2e_single_frame_tables_none code_dec code_disp code_ids code_fast code_lookups code_bitlookups code_indirect
            ts_ok g st i pgn prio src dst data comb); assumption.
 Qed.
 Print Assumptions E2E_no_definition.
 
+(* a PGN without dispatcher: the bound definition decodes EVERY payload (no Match rule is consulted by the code); this
+   covers, beyond E2E_any_entry, the single definitions that carry match fields *)
+Theorem E2E_undispatched : forall g d, In g db_groups -> is_dispatched g = false -> In d (bound_defs g) -> simple_def d = true ->
+  forall ts_ok st i pgn prio src dst data comb,
+  parse_with ts_ok (e_fmt i) (e_data i) = Ok (Some (pgn, prio, src, dst, rev data, comb)) ->
+  pgn = group_pgn g -> pgn <> 60928 ->
+  (comb = true \/ tbl_is_fast code_fast pgn = Ok (Some false)) ->
+  (forall n, zlookup src (srcmap st) = Some n -> mfr_modelled n = true) ->
+  step ts_ok cfg0 st i = (st, e2e_expected SL SLB d (le_int data) src dst prio (zlookup src (srcmap st))).
+Proof.
+  intros g d Hg D Hd S ts_ok st i pgn prio src dst data comb P Ep Hp Hf Hi.
+  pose proof (G_ok g Hg) as G.
+  pose proof E2E_side as Sd. rewrite forallb_forall in Sd. specialize (Sd g Hg).
+  rewrite forallb_forall in Sd. specialize (Sd d (bound_defs_in g d Hd)).
+  apply andb_true_iff in Sd. destruct Sd as [Pg A]. apply Z.eqb_eq in Pg.
+  unfold step.
+  apply (e2e_single_frame_tables_undispatched code_dec code_disp code_ids code_fast code_lookups code_bitlookups
+           code_indirect ts_ok SL SLB g d st i pgn prio src dst data comb); try assumption.
+  exact (C01_here g d Hg Hd S).
+Qed.
+Print Assumptions E2E_undispatched.
+
+(* the address claim, PGN 60928: the message carries the identity IsoName.__init__ builds from the decoded fields (or the
+   stored one when the NAME is unchanged), and the source map is updated — `claim_result` of EndToEndProofs.v *)
+Theorem E2E_claim : forall g d, In g db_groups -> group_pgn g = 60928 -> In d (bound_defs g) -> simple_def d = true ->
+  forall ts_ok st i prio src dst data comb,
+  parse_with ts_ok (e_fmt i) (e_data i) = Ok (Some (60928, prio, src, dst, rev data, comb)) ->
+  (comb = true \/ tbl_is_fast code_fast 60928 = Ok (Some false)) ->
+  step ts_ok cfg0 st i
+  = let sr := claim_result st {| c_pgn := 60928; c_src := src; c_dst := dst; c_data := data; c_win := e_win i |}
+                           (spec_dmsg SL SLB (le_int data) d) in
+    (fst sr, with_prio prio (snd sr)).
+Proof.
+  intros g d Hg Eg Hd S ts_ok st i prio src dst data comb P Hf.
+  pose proof (G_ok g Hg) as G.
+  assert (D : is_dispatched g = false).
+  { assert (A : forallb (fun g => negb (group_pgn g =? 60928) || negb (is_dispatched g)) db_groups = true)
+      by (vm_compute; reflexivity).
+    rewrite forallb_forall in A. specialize (A g Hg). rewrite Eg in A. cbn in A.
+    destruct (is_dispatched g); [discriminate | reflexivity]. }
+  pose proof E2E_side as Sd. rewrite forallb_forall in Sd. specialize (Sd g Hg).
+  rewrite forallb_forall in Sd. specialize (Sd d (bound_defs_in g d Hd)).
+  apply andb_true_iff in Sd. destruct Sd as [Pg _]. apply Z.eqb_eq in Pg.
+  unfold step.
+  apply (e2e_claim_tables code_dec code_disp code_ids code_fast code_lookups code_bitlookups code_indirect ts_ok SL SLB g d
+           st i prio src dst data comb); try assumption.
+  exact (C01_here g d Hg Hd S).
+Qed.
+Print Assumptions E2E_claim.
+
 (* ---- coverage: groups; in scope; (group, bound definition) pairs; of which fixed-layout and in scope (covered by
         E2E_any_entry); of which their PGN is single-frame in the code (covered through the frame-by-frame entry points
         too; the others through the already-combined entry points) ---- *)
 Definition covered : list (list dbdef * dbdef) :=
   flat_map (fun g => if in_scope g then map (fun d => (g, d)) (filter simple_def (bound_defs g)) else []) db_groups.
+(* (group, bound definition) pairs covered by E2E_any_entry or E2E_undispatched *)
+Definition covered_all : list (list dbdef * dbdef) :=
+  flat_map (fun g => if in_scope g || negb (is_dispatched g) then map (fun d => (g, d)) (filter simple_def (bound_defs g)) else [])
+           db_groups.
+Eval vm_compute in (88888%Z, length covered_all).
 Eval vm_compute in
   (length db_groups, length (filter in_scope db_groups), length (flat_map bound_defs db_groups), length covered,
    length (filter (fun gd => match tbl_is_fast code_fast (group_pgn (fst gd)) with Ok (Some false) => true | _ => false end) covered)).
